@@ -152,6 +152,7 @@ type WaitSummary struct {
 	Skipped   int    `json:"skipped"`
 	MaxParked int    `json:"max_parked"`
 	Leaked    int    `json:"leaked"`
+	Aborted   int    `json:"aborted"` // walks not started because too many walks had got stuck
 	// Observer: "notify-lists" (parked goroutines read from the condition variables) or "timing" (no such table in
 	// the server: parked = the call has not returned reg_ms after it was issued)
 	Observer string `json:"observer"`
@@ -426,8 +427,8 @@ func (w *walkRun) requests(cs []int, stagger bool) error {
 	select {
 	case <-done:
 		return nil
-	case <-time.After(30 * time.Second):
-		return errors.New("a request was not dispatched within 30s")
+	case <-time.After(20 * time.Second):
+		return errors.New("a request was not dispatched within 20s")
 	}
 }
 
@@ -542,21 +543,35 @@ func runWalk(wk WaitWalk, b WaitBinding, grace, regMs time.Duration, timing bool
 		cur = post
 		sum.Steps++
 	}
-	// release whatever is still parked so that the goroutines (and connections) go away
-	for k := 0; k < 40 && w.openCalls() > 0; k++ {
-		b.Release()
-		time.Sleep(time.Duration(k+1) * 200 * time.Microsecond)
-	}
-	t0 := time.Now()
-	for w.openCalls() > 0 && time.Since(t0) < 2*time.Second {
-		time.Sleep(time.Millisecond)
+	// release whatever is still parked so that the goroutines (and connections) go away; the code under test may be
+	// wedged (a panic with a lock held), so cleanup never blocks the walk
+	cleaned := make(chan struct{})
+	go func() {
+		defer close(cleaned)
+		for k := 0; k < 40 && w.openCalls() > 0; k++ {
+			b.Release()
+			time.Sleep(time.Duration(k+1) * 200 * time.Microsecond)
+		}
+		t0 := time.Now()
+		for w.openCalls() > 0 && time.Since(t0) < 2*time.Second {
+			time.Sleep(time.Millisecond)
+		}
+	}()
+	select {
+	case <-cleaned:
+	case <-time.After(5 * time.Second):
 	}
 	sum.Leaked = w.openCalls()
 	sum.Slow = w.slow
 	if cc, ok := b.(classCounter); ok {
 		sum.Classes = cc.Classes()
 	}
-	b.Close()
+	closed := make(chan struct{})
+	go func() { defer close(closed); b.Close() }()
+	select {
+	case <-closed:
+	case <-time.After(2 * time.Second):
+	}
 	sum.Walks = 1
 	return recs, sum
 }
@@ -607,6 +622,7 @@ func RunWaitPlan(mk func(r *mrand.Rand) (WaitBinding, error)) (WaitSummary, erro
 	}
 	var mu sync.Mutex
 	var firstErr error
+	var nvWalks int32
 	sem := make(chan struct{}, plan.Par)
 	var wg sync.WaitGroup
 	for i, wk := range plan.Walks {
@@ -615,6 +631,13 @@ func RunWaitPlan(mk func(r *mrand.Rand) (WaitBinding, error)) (WaitSummary, erro
 		go func(i int, wk WaitWalk) {
 			defer wg.Done()
 			defer func() { <-sem }()
+			if atomic.LoadInt32(&nvWalks) >= 24 {
+				// the code under test is wedged: the remaining walks are not started
+				mu.Lock()
+				total.Aborted++
+				mu.Unlock()
+				return
+			}
 			rnd := NewRand("wait-"+wk.ID, int64(i))
 			b, err := mk(rnd)
 			if err != nil {
@@ -628,6 +651,11 @@ func RunWaitPlan(mk func(r *mrand.Rand) (WaitBinding, error)) (WaitSummary, erro
 			recs, s := runWalk(wk, b, grace, regMs, timing, plan.MaxPark, rnd)
 			if s.NoVerdict == 0 {
 				tr.EmitAll(recs)
+			} else {
+				atomic.AddInt32(&nvWalks, 1)
+				if len(recs) > 2 {
+					tr.EmitAll(recs) // the steps observed before the walk got stuck are facts too
+				}
 			}
 			mu.Lock()
 			total.Via = b.Via()
